@@ -521,6 +521,28 @@ class Program:
             raise LookupError(f'function /{name_regex}/ in {file}: {len(r)} candidates {[x.name for x in r][:6]}')
         return r[0]
 
+    def method(self, file, name, nargs=None, arg0=None, ret=None, closure=False):
+        """locate a function by source file + (method) name + signature shape, never by line number"""
+        out = []
+        for n in self._spans:
+            if not (n == name or n.endswith('::' + name)):
+                continue
+            if ('{closure#' in n) != closure:
+                continue
+            for f in self.funcs_named(n):
+                if not (f.file and f.file.endswith(file)):
+                    continue
+                if nargs is not None and len(f.args) != nargs:
+                    continue
+                if arg0 is not None and not (f.args and re.search(arg0, f.args[0][1])):
+                    continue
+                if ret is not None and not re.search(ret, f.ret):
+                    continue
+                out.append(f)
+        if len(out) != 1:
+            raise LookupError(f'{file}::{name} (nargs={nargs}, arg0={arg0}, ret={ret}): {len(out)} candidates {[x.name for x in out][:5]}')
+        return out[0]
+
     def const_body(self, name):
         """MIR body of a named constant as a Func-like object (no args)"""
         if name not in self._const_bodies:
